@@ -1,10 +1,11 @@
 #!/bin/bash
 # re-runs every kept seeded change against the current checks: applies the patch in /repo, runs the property's quick check,
 # restores /repo.  Writes /verif/seeded/REGRESSION.txt (one line per change: id property exit-code or STALE when the patch
-# no longer applies to the repaired tree).
+# no longer applies to the repaired tree).  usage: seed_regress.sh [glob of seed ids, default *]
 cd /repo && git diff --quiet || { echo "/repo is not clean"; exit 9; }
-OUT=/verif/seeded/REGRESSION.txt; : > $OUT
-for D in /verif/seeded/*/; do
+PAT=${1:-*}
+OUT=/verif/seeded/REGRESSION.txt; [ "$PAT" = "*" ] && : > $OUT
+for D in /verif/seeded/$PAT/; do
   ID=$(basename $D); [ -f $D/patch.diff ] || continue
   P=$(python3 -c "import json; print(json.load(open('$D/meta.json'))['property'])")
   if ! git -C /repo apply --check $D/patch.diff 2>/dev/null; then echo "$ID $P STALE (patch does not apply to the current tree)" >> $OUT; continue; fi
@@ -13,4 +14,4 @@ for D in /verif/seeded/*/; do
   git -C /repo checkout -- . ; git -C /repo clean -fdq -e out 2>/dev/null
   echo "$ID $P exit=$X $(grep -c '^VIOLATION' /tmp/regress_$ID.log) violation lines" >> $OUT
 done
-echo DONE >> $OUT
+echo "DONE ($PAT) at $(git -C /verif rev-parse --short HEAD)" >> $OUT
